@@ -15,7 +15,7 @@ from ..oracles import dft
 PID = "C17"
 LEVEL = "exploration"
 RULE = ("{FFT, Full} x N in {16,17,64,65} x grid offset {0, 5dt, -3dt, 2^20 dt} x band {inside, touching 0, past Nyquist, between "
-        "bins} x amplitude {constant, vector callable, scalar-only callable, default Rayleigh} x uniqueness {1,2,3} x rms {given, (T,R)}; "
+        "bins} x amplitude {constant, vector callable, scalar-only callable, default Rayleigh} x uniqueness {1,2,3} x rms {given, (T,R), exactly 0}; "
         "per configuration the draws are the default Weyl stream plus every single draw (and pairs, thorough) replaced by each of "
         "{0.0, 0.25, 0.5, 0.75}; distinct_nontrivial = distinct configurations x draw scripts with a non-empty basis")
 ASSUMPTIONS = ["numpy.random is owned: rayleigh/rand are derived by inverse CDF from the harness' uniform variates",
@@ -69,6 +69,8 @@ def _construct(cls, times, band, amp, unique, rms_spec, source):
         kw["f_amplitude"] = amp
     if rms_spec == "given":
         kw["rms_voltage"] = 0.75
+    elif rms_spec == "zero":
+        kw["rms_voltage"] = 0.0
     else:
         kw["temperature"] = 300.0
         kw["resistance"] = 50.0
@@ -98,11 +100,13 @@ def evaluate(case):
     nev = 0
     maxerr = 0.0
     only = case.get("only")
-    for ampname, unique, rms_spec in itertools.product(AMPS, (1, 2, 3), ("given", "TR")):
+    for ampname, unique, rms_spec in itertools.product(AMPS, (1, 2, 3), ("given", "TR", "zero")):
         if only and [ampname, unique, rms_spec] != only[:3]:
             continue
+        if rms_spec == "zero" and ampname != "const":
+            continue        # a requested RMS of exactly 0 V (edge value): one amplitude spec is enough
         amp_arg, amp_ref = _amp_spec(ampname)
-        rms = 0.75 if rms_spec == "given" else math.sqrt(kB * 300.0 * 50.0 * (band[1] - band[0]))
+        rms = {"given": 0.75, "zero": 0.0}.get(rms_spec, math.sqrt(kB * 300.0 * 50.0 * (band[1] - band[0])))
         cfg = "%s N=%d offset=%d*dt band=%s amp=%s unique=%d rms=%s" % (cls, n, off, bname, ampname, unique, rms_spec)
         tags = {"cls": cls, "band": bname, "amp": ampname, "offset": off,
                 "nyquist_in_band": bool(cls == "FFT" and (unique * n) % 2 == 0 and band[1] >= 1 / (2 * DT))}
@@ -160,7 +164,7 @@ def evaluate(case):
                     fail("amplitudes", "default amplitudes are not Rayleigh(1/sqrt2) variates of the draws (E[a^2] must be 1)", script)
             # 3. the waveform is the published cosine sum
             exp = _expected(cls, obj, times, times[0], rms)
-            scale = rms * math.sqrt(2.0 * max(len(f), 1)) * (max(1.0, float(np.max(np.abs(obj.amps)))) if len(f) else 1.0)
+            scale = (rms or 1.0) * math.sqrt(2.0 * max(len(f), 1)) * (max(1.0, float(np.max(np.abs(obj.amps)))) if len(f) else 1.0)
             err = float(np.max(np.abs(vals - exp))) / scale if len(vals) == n else float("inf")
             maxerr = max(maxerr, err if not tags["nyquist_in_band"] else 0.0)
             k1 = False
